@@ -51,7 +51,7 @@ type c24Case struct {
 }
 
 var (
-	c24Apps    = []string{"a", "ab", "a_b", "a/b", "/a", "a/", "a*", "a.b"}
+	c24Apps    = []string{"a", "ab", "a_b", "a_", "a/b", "/a", "a/", "a*", "a.b"}
 	c24Entries = []string{"e", "ee", "e/f", "b", "*"}
 	c24Nodes   = []string{"n", "nn", "n/m", "n_1"}
 	// thorough: triples of workloads over the names that interact
@@ -169,7 +169,7 @@ func c24Explore(t *testing.T, c *vcore.Ctx) {
 		dir = t.TempDir()
 	}
 	apps, entries, dropped := c24Accepted()
-	c.SetRule("worlds = every set of <= 2 distinct (app, entry, node) triples (thorough: plus every set of 3 over apps {a,ab,a/b,a*} x entries {e,e/f,b,*} x nodes {n,n/m}) with one workload per triple added through Store.AddWorkload; names: apps {a,ab,a_b,a/b,/a,a/,a*,a.b}, entries {e,ee,e/f,b,*}, nodes {n,nn,n/m,n_1}, all accepted by DeployOptions.Validate / AddNodeOptions.Validate; queries per world: ListWorkloads over every given/empty combination of (app, entry, node) (worlds of size <= 1: every name of the alphabet, so every absent name too; larger worlds: the names present, thorough: plus one absent name), GetDeployStatus(app, entry) before and after CreateProcessing(count 2) for every triple, WorkloadStatusStream prefixes on etcd; plus ParseWorkloadName o MakeWorkloadName over all names x idents {a,ab,xyz}; both store backends; non-trivial = worlds with at least one workload")
+	c.SetRule("worlds = every set of <= 2 distinct (app, entry, node) triples (thorough: plus every set of 3 over apps {a,ab,a/b,a*} x entries {e,e/f,b,*} x nodes {n,n/m}) with one workload per triple added through Store.AddWorkload; names: apps {a,ab,a_b,a_,a/b,/a,a/,a*,a.b}, entries {e,ee,e/f,b,*}, nodes {n,nn,n/m,n_1}, all accepted by DeployOptions.Validate / AddNodeOptions.Validate; queries per world: ListWorkloads over every given/empty combination of (app, entry, node) (worlds of size <= 1: every name of the alphabet, so every absent name too; larger worlds: the names present, thorough: plus one absent name), GetDeployStatus(app, entry) before and after CreateProcessing(count 2) for every triple, WorkloadStatusStream prefixes on etcd; plus ParseWorkloadName o MakeWorkloadName over all names x idents {a,ab,xyz}; both store backends; non-trivial = worlds with at least one workload")
 	c.Bound("apps", c24Apps)
 	c.Bound("entries", c24Entries)
 	c.Bound("nodes", c24Nodes)
